@@ -294,7 +294,9 @@ func repoKeysScanner(ctx context.Context, contextStore context2.Stores, repo mod
 				Logger(zap.NewNop()), // mute verbosity on retrieving bundle details
 			)
 
-			keys, erk := bundleKeys(ctx, b, bundle.LeafSize, db, lg)
+			// when resuming, the KV has been preloaded with chunks cut anywhere in the key sequence:
+			// a root key known to the KV does not mean that its leaves are known too.
+			keys, erk := bundleKeys(ctx, b, bundle.LeafSize, db, lg, !options.resume)
 			if erk != nil {
 				return erk
 			}
@@ -517,7 +519,7 @@ func insistantBackoff() backoff.BackOff {
 	return withRetry
 }
 
-func bundleKeys(ctx context.Context, b *Bundle, size uint32, db kvStore, logger *zap.Logger) ([]string, error) {
+func bundleKeys(ctx context.Context, b *Bundle, size uint32, db kvStore, logger *zap.Logger, skipKnownRoots bool) ([]string, error) {
 	if err := backoff.Retry(func() error {
 		return unpackBundleFileList(ctx, b, false, defaultBundleEntriesPerFile)
 	},
@@ -546,7 +548,7 @@ func bundleKeys(ctx context.Context, b *Bundle, size uint32, db kvStore, logger 
 			return nil, err
 		}
 
-		if found {
+		if found && skipKnownRoots {
 			// the root key is found in store, no need to unpack it: we necessarily have all its leaves in store
 			continue
 		}
